@@ -217,3 +217,11 @@ func init() {
 		mutant{Name: "source-package-registered-before-its-check", Prop: "C12", File: "interp/src.go", Old: "\t// Generate control flow graphs.\n\tfor _, root := range rootNodes {\n\t\tvar nodes []*node\n\t\tif nodes, err = interp.cfg(root, nil, importPath, pkgName); err != nil {\n\t\t\treturn \"\", err\n\t\t}\n\t\tinitNodes = append(initNodes, nodes...)\n\t}\n", New: "\tinterp.mutex.Lock()\n\tif s := interp.scopes[importPath]; s != nil {\n\t\tinterp.srcPkg[importPath] = s.sym\n\t}\n\tinterp.mutex.Unlock()\n\t// Generate control flow graphs.\n\tfor _, root := range rootNodes {\n\t\tvar nodes []*node\n\t\tif nodes, err = interp.cfg(root, nil, importPath, pkgName); err != nil {\n\t\t\treturn \"\", err\n\t\t}\n\t\tinitNodes = append(initNodes, nodes...)\n\t}\n", Rule: "R12.19", Key: "importSrc/registration#1/after-the-checking-passes"},
 	)
 }
+
+func init() {
+	addMutants(
+		// round-6 seeds on C13 and C15
+		mutant{Name: "print-overrides-only-for-non-file-streams", Prop: "C13", File: "interp/use.go", Old: "\tp[\"Print\"] = reflect.ValueOf(func(a ...interface{}) (n int, err error) { return fmt.Fprint(stdout, a...) })\n", New: "\tif _, isFile := stdout.(*os.File); !isFile {\n\t\tp[\"Print\"] = reflect.ValueOf(func(a ...interface{}) (n int, err error) { return fmt.Fprint(stdout, a...) })\n\t}\n", Rule: "R13.5", Key: "fmt.Print/unconditional"},
+		mutant{Name: "uninitialised-variables-are-no-dependencies", Prop: "C15", File: "interp/cfg.go", Old: "\t\t\tcase sym.kind == varSym && sym.node != nil && sym.node != nod:\n\t\t\t\tdeps = append(deps, sym.node)\n", New: "\t\t\tcase sym.kind == varSym && sym.node != nil && sym.node != nod:\n\t\t\t\tif sym.node.kind != valueSpec {\n\t\t\t\t\tdeps = append(deps, sym.node)\n\t\t\t\t}\n", Rule: "R15.14", Key: "getVarDependencies/variable-case#1/every-variable-is-a-dependency"},
+	)
+}
